@@ -104,6 +104,7 @@ func cmdCheck(args []string, repo, spec string, timeout int, verbose bool) int {
 	}
 	c := &Checker{W: w, Prop: ps, Tier: tier, Seed: seed, Timeout: timeout, Dir: dir, Verif: verif, EncOf: map[*Obl]*enc{}}
 	c.selectAndEncode()
+	c.writersObligations()
 	if ps.Extra != nil {
 		ps.Extra(c)
 	}
@@ -129,6 +130,67 @@ func (c *Checker) selectAndEncode() {
 			continue
 		}
 		c.addFunc(f, nil)
+	}
+}
+
+// writersObligations: "type T writers f: fns | Cnn" — every non-constructor store to T.f lies in a listed function.
+func (c *Checker) writersObligations() {
+	w := c.W
+	var keys []string
+	for k := range w.CS.Types {
+		keys = append(keys, k)
+	}
+	sort.Strings(keys)
+	for _, k := range keys {
+		td := w.CS.Types[k]
+		for _, wd := range td.Writers {
+			mine := false
+			for _, p := range wd.Props {
+				if p == c.Prop.ID {
+					mine = true
+				}
+			}
+			if !mine {
+				continue
+			}
+			w.immutableArr("")
+			arr := "H_" + td.Pkg + "." + td.Type + "." + wd.Field
+			allowed := map[string]bool{}
+			for _, f := range wd.Funcs {
+				allowed[f] = true
+			}
+			var ws []string
+			for f := range w.Mod.Writers[arr] {
+				ws = append(ws, f)
+			}
+			sort.Strings(ws)
+			var holder *enc
+			for _, fk := range ws {
+				f := w.Funcs[fk]
+				if f == nil {
+					continue
+				}
+				e := c.structEnc(f)
+				if holder == nil {
+					holder = e
+				}
+				c.addStruct(e, "frame", "writers:"+td.Type+"."+wd.Field, f.Pos(), allowed[fk], fmt.Sprintf("%s stores to %s.%s of an existing object; allowed writers: %v", fk, td.Type, wd.Field, wd.Funcs))
+			}
+			if holder == nil {
+				// no writer at all (the field is constructor-only): still one obligation recording the scan
+				for _, fk := range wd.Funcs {
+					if f := w.Funcs[fk]; f != nil {
+						holder = c.structEnc(f)
+						break
+					}
+				}
+			}
+			if holder != nil {
+				c.addStruct(holder, "frame", "writers-scan:"+td.Type+"."+wd.Field, holder.f.Pos(), true, fmt.Sprintf("all stores to %s.%s outside constructors: %v", td.Type, wd.Field, ws))
+			} else {
+				c.engineErr = append(c.engineErr, fmt.Sprintf("%s:%d: writers clause names no existing function", wd.File, wd.Line))
+			}
+		}
 	}
 }
 
